@@ -202,6 +202,11 @@ func (r *ReaderStream) Read(p []byte) (int, error) {
 // manner that's safe for the assembler (IE: it doesn't block).
 func (r *ReaderStream) Close() error {
 	r.current = nil
+	// The batch handed over to the last Read has not been acknowledged yet:
+	// the assembler is waiting for that before it sends or closes anything.
+	if !r.first && !r.closed {
+		r.done <- true
+	}
 	r.closed = true
 	for {
 		if _, ok := <-r.reassembled; !ok {
